@@ -197,6 +197,17 @@ class HSymMixin(Hooks, SymlinkNodeMixin):
             self.children = children
 
 
+class HSymOwn(Hooks, SymlinkNodeMixin):
+    """User class on SymlinkNodeMixin that keeps one attribute of its own (`tag`) on the link itself."""
+
+    def __init__(self, target, tag=None, parent=None, children=None):
+        self.target = target
+        object.__setattr__(self, "tag", tag)
+        self.parent = parent
+        if children:
+            self.children = children
+
+
 FAMILIES = {
     "mixin": dict(cls=HMixin, strict=True),
     "light": dict(cls=HLight, strict=False),
